@@ -98,3 +98,18 @@ def witness_F24():
     except Exception:
         return True
     return False
+
+
+# ---- F13 (C20): circuits outside the parser's normal form cannot be drawn
+def outside_parser_normal_form(entry):
+    i = entry.get("input")
+    return isinstance(i, dict) and i.get("normal_form") is False and entry.get("what") in ("circuitikz-fails-outside-normal-form", "drawing-fails-outside-normal-form")
+
+
+def witness_F13():
+    from pyimpspec import Circuit, Parallel, Resistor
+    try:
+        Circuit(Parallel([Resistor()])).to_circuitikz()
+    except ValueError:
+        return True
+    return False
